@@ -31,7 +31,7 @@ def run(ctx):
         return
     T, TB, MAX, MIN, SS, BUF, MP, CM, IS = [ci(n) for n in need]
     ctx.ob('1a tiers-strictly-increasing', 'K8-const', 'column::SIZES', 'SIZES is strictly increasing (each tier is a distinct size class)', all(a < b for a, b in zip(sizes, sizes[1:])),
-           'first non-increasing pair: %s' % next(((i, a, b) for i, (a, b) in enumerate(zip(sizes, sizes[1:])) if not a < b), None))
+           'first non-increasing pair (index, a, b): %s' % (next(((i, a, b) for i, (a, b) in enumerate(zip(sizes, sizes[1:])) if not a < b), None),))
     ctx.ob('1b tiers-in-range', 'K8-const', 'column::SIZES', 'MIN_ENTRY_SIZE <= SIZES[0] and SIZES[last] <= MAX_ENTRY_SIZE', MIN <= sizes[0] and sizes[-1] <= MAX, '%d..%d vs [%d,%d]' % (sizes[0], sizes[-1], MIN, MAX))
     ctx.ob('1c tier-count', 'K8-const', 'column::SIZES', 'SIZES.len() + 1 == SIZE_TIERS == 1 << SIZE_TIERS_BITS (the last tier is the multipart table; the tier fits the address bits)', len(sizes) + 1 == T == (1 << TB), '%d %d %d' % (len(sizes), T, TB))
     ctx.ob('1d multipart-entry-in-range', 'K8-const', 'table', 'MIN_ENTRY_SIZE <= MULTIPART_ENTRY_SIZE <= MAX_ENTRY_SIZE', MIN <= MP <= MAX, str(MP))
